@@ -59,14 +59,14 @@ type Thread struct {
 	steps  int
 
 	// happens-before tracking (state-key pruning)
-	key     string   // schedule-independent name: parent key + "." + child index
-	nkids   int      // children spawned so far
-	vc      []int    // vector clock, indexed by thread ID
-	evLabel string   // label of the event in progress ("" = none)
-	evIdx   int      // index of the event in progress
-	touched []uintptr
-	pendingEnd bool  // event finished, clock not yet settled (see flushEvents)
-	nextObj []uintptr // objects named at the point the thread is parked at
+	key        string // schedule-independent name: parent key + "." + child index
+	nkids      int    // children spawned so far
+	vc         []int  // vector clock, indexed by thread ID
+	evLabel    string // label of the event in progress ("" = none)
+	evIdx      int    // index of the event in progress
+	touched    []uintptr
+	pendingEnd bool      // event finished, clock not yet settled (see flushEvents)
+	nextObj    []uintptr // objects named at the point the thread is parked at
 }
 
 // Sched schedules the threads of one execution.
@@ -135,17 +135,18 @@ func (s Status) String() string {
 
 // Options bound one exploration.
 type Options struct {
-	Deviations  int           // max total deviations (preemptions + select + time) per execution (-1 = unbounded)
-	Preemptions int           // max preemptive thread switches per execution (-1 = unbounded)
-	SelectDevs  int           // max non-default select orders per execution (-1 = unbounded)
-	TimeDevs    int           // max "let time pass although a thread is enabled" choices per execution
-	MaxSteps    int           // scheduling steps horizon per execution (default 5000)
-	MaxTimeAdv  int           // idle time advances horizon (default 200)
-	TimeStep    time.Duration // how far an idle scheduler lets fake time run before declaring Stuck (default 1h)
-	Workers     int           // parallel explorers (default 16)
-	MaxExecs    int64         // cap on executions (0 = none); hitting it makes the exploration non-exhaustive
-	NoStatePruning bool       // disable happens-before state-key pruning (plain bounded DFS)
-	ReplayEvery int           // replay 1 in N executions (same outcome, same choice points, same state keys) to prove determinism (default 16; 0 = default, -1 = never)
+	Deviations     int           // max total deviations (preemptions + select + time) per execution (-1 = unbounded)
+	Preemptions    int           // max preemptive thread switches per execution (-1 = unbounded)
+	SelectDevs     int           // max non-default select orders per execution (-1 = unbounded)
+	TimeDevs       int           // max "let time pass although a thread is enabled" choices per execution
+	MaxSteps       int           // scheduling steps horizon per execution (default 5000)
+	MaxTimeAdv     int           // idle time advances horizon (default 200)
+	TimeStep       time.Duration // how far an idle scheduler lets fake time run before declaring Stuck (default 1h)
+	Workers        int           // parallel explorers (default 16)
+	MaxExecs       int64         // cap on executions (0 = none); hitting it makes the exploration non-exhaustive
+	NoStatePruning bool          // disable happens-before state-key pruning (plain bounded DFS)
+	Deadline       time.Time     // stop expanding after this wall-clock instant (zero = none); like MaxExecs, hitting it makes the exploration non-exhaustive
+	ReplayEvery    int           // replay 1 in N executions (same outcome, same choice points, same state keys) to prove determinism (default 16; 0 = default, -1 = never)
 }
 
 func (o *Options) defaults() {
